@@ -188,13 +188,24 @@ def install(ex: Explorer) -> None:
                 if isinstance(k_, VStr) and k_.s == "GALLIA_EXIT_CODE":
                     code = v_
         I.ghost["hooks"].append((I.ghost.get("hook_variant"), code))
-        if I.choose([z3.BoolVal(True)] * 2) == 1:
+        # contract of subprocess.run: through the shell (shell=True) a script that is missing or
+        # not executable ends as exit status 127/126 of /bin/sh, i.e. CalledProcessError with
+        # check=True; without the shell, spawning the program itself can fail with an OSError
+        # (FileNotFoundError, PermissionError, exec format error)
+        sh = kwargs.get("shell")
+        through_shell = isinstance(sh, VBool) and sh.concrete() is True
+        k = I.choose([z3.BoolVal(True)] * (2 if through_shell else 4))
+        if k >= 2:
+            I.raise_py(FileNotFoundError if k == 2 else PermissionError, "hook script")
+        if k == 1:
             e = VObj(subprocess.CalledProcessError, {"args": VTuple([]), "returncode": VInt(3),
                                                      "stdout": VStr(), "stderr": VStr()})
             raise PyExc(e)
         return VObj(Stub, {"stdout": VStr(), "stderr": VStr(), "returncode": VInt(0)},
                     lazy=True, tag="proc")
     models.MODELS[subprocess.run] = sp_run
+    import shlex
+    models.MODELS[shlex.split] = lambda I, a, k: VList([VStr(), VStr()])
     models.CLASS_MODELS[Path] = lambda I, cls, a, k: VObj(Stub, {"name": VStr()}, lazy=True,
                                                          tag="path")
     ex.stub_attrs[("config", "lock_file")] = lambda I, o: (
@@ -487,7 +498,18 @@ def build_units(tier: str) -> list[Unit]:
     units.append(Unit("frame/UDSScanner.teardown", teardown_harness("UDSScanner"),
                       setup=install))
     units.append(Unit("AsyncScript.run", async_run_harness, setup=install))
+    # "the log file holds the run's records": the writer side of the log handler (unit of C17) -
+    # one complete line per record for every level, and the serialised record is ASCII, so the
+    # listener thread's encode()/write() cannot fail on any message text
+    from . import c17
+    units.append(Unit("log/emit-and-format", c17.writer_harness, setup=_log_setup))
     return units
+
+
+def _log_setup(ex: Explorer) -> None:
+    ex.obligation_filter = lambda name: name.startswith(  # type: ignore[attr-defined]
+        ("W-emit-does-not-raise", "W-format-does-not-raise", "W-one-line-with-prefix",
+         "W-serialised-record-is-ASCII"))
 
 
 # --------------------------------------------------------------------------- native side
@@ -598,6 +620,9 @@ def native_ownership() -> tuple[bool, str]:
 
 def native_replay(unit: str, obligation: str, model: dict) -> tuple[bool, str]:
     import shutil
+    if unit.startswith("log/"):
+        from . import c17
+        return c17.native_replay("writer/emit-and-format", obligation, model)
     if unit.startswith("db/complete_run_meta"):
         return native_db_complete("with-" in unit)
     if unit.startswith("ownership/"):
